@@ -128,7 +128,7 @@ PollEmpty ==  \* io: `default` of the select on a buffered input; hook PollEmpty
 PollTick ==   \* iou: the 1ns interrupter fired (Go may pick it even when a writer is ready); hook PollTick{p, interrupt}
   /\ pc = "Poll" /\ NextPollable # 0
   /\ ~Saturated
-  /\ LET p == PrioSeq[NextPollable] IN InCap[p] = 0 /\ ~(inq[p] = <<>> /\ closed[p])
+  /\ LET p == PrioSeq[NextPollable] IN InCap[p] = 0          \* also when the channel is closed: select picks any ready case
   /\ IF intr THEN idx' = NextPollable + 1 /\ intr' = FALSE
      ELSE idx' = NextPollable /\ intr' = TRUE
   /\ UNCHANGED <<pc, phase, actual, tactic, processed, carry, lim, drained, bad, finfo>> /\ UNCHANGED evars
